@@ -24,6 +24,15 @@ import (
 // HA sync messages
 // ---------------------------------------------------------------------------
 
+// haType: the known message types, or a keyword harvested from the package under test (a message type added by a
+// change is in the dictionary)
+func haType(rt *rapid.T) any {
+	if d := dictFor("ha"); len(d.strs) > 0 && uni(rt, 4, "typeFromDict") == 0 {
+		return d.strs[uni(rt, len(d.strs), "typeDict")]
+	}
+	return rapid.SampledFrom([]any{"full", "add", "update", "delete", "heartbeat", "full_request", "bogus", 7, nil}).Draw(rt, "type")
+}
+
 func genSyncJSON(rt *rapid.T) *bld {
 	sess := func() map[string]any {
 		m := map[string]any{
@@ -56,7 +65,7 @@ func genSyncJSON(rt *rapid.T) *bld {
 		ss = l
 	}
 	msg := map[string]any{
-		"type":         rapid.SampledFrom([]any{"full", "add", "update", "delete", "heartbeat", "full_request", "bogus", 7, nil}).Draw(rt, "type"),
+		"type":         haType(rt),
 		"sessions":     ss,
 		"timestamp":    rapid.SampledFrom([]any{"2026-01-02T03:04:05Z", "bad", 1}).Draw(rt, "mts"),
 		"sequence_num": rapid.SampledFrom([]any{1, 18446744073709551615.0, -1, "1"}).Draw(rt, "seq"),
@@ -241,7 +250,12 @@ func bldFTP(rt *rapid.T) *bld {
 		case 5:
 			sb.WriteString(rapid.SampledFrom([]string{"USER anonymous", "RETR file", "200 OK", "port 1,2,3,4,5,6", "eprt |1|1.2.3.4|5|", "EPRT |2|::1|5|"}).Draw(rt, "other"))
 		default:
-			sb.Write(rbytes(rt, 0, 30, "junk"))
+			if d := dictFor("nat"); len(d.strs) > 0 && uni(rt, 2, "kwFromDict") == 0 {
+				// a command keyword / reply code harvested from the package under test, with plausible arguments
+				fmt.Fprintf(&sb, "%s %s,%s,%s,%s,%s,%s", d.strs[uni(rt, len(d.strs), "kw")], numStr(rt), numStr(rt), numStr(rt), numStr(rt), numStr(rt), numStr(rt))
+			} else {
+				sb.Write(rbytes(rt, 0, 30, "junk"))
+			}
 		}
 		sb.WriteString(rapid.SampledFrom([]string{"\r\n", "\r\n", "\n", ""}).Draw(rt, "eol"))
 	}
@@ -329,9 +343,13 @@ func init() {
 func bldVendor(rt *rapid.T) *bld {
 	p := &bld{}
 	for n := rapid.IntRange(0, 4).Draw(rt, "nsub"); n > 0; n-- {
-		p.u8(rapid.SampledFrom([]int{1, 1, 2, 0, 255}).Draw(rt, "type"))
+		d := dictFor("ztp")
+		p.u8(dictType(rt, d, "type", 1, 1, 2, 0, 255))
 		i := p.len8()
 		v := []byte(rapid.SampledFrom([]string{"https://nexus.example:9000", "", "x"}).Draw(rt, "url"))
+		if uni(rt, 4, "valFromDict") == 0 {
+			v = dictBytes(rt, d, 32, "val")
+		}
 		p.raw(v...)
 		p.set(i, len(v))
 	}
@@ -346,6 +364,17 @@ func init() {
 		mkDHCP4(5, macA, noGi, hx("2b 01 01")), mkDHCP4(5, macA, noGi, hx("2b 00")), mkDHCP4(5, macA, noGi, hx("e0 00")), mkDHCP4(5, macA, noGi)}
 	register(&target{
 		name: "ztp.extractNexusURL",
+		dictSeeds: func() [][]byte {
+			// every one-byte literal of the package as sub-option code of option 43 x hostile inner lists
+			var o [][]byte
+			for _, v := range dictFor("ztp").small {
+				for _, sh := range innerShapes(1, 1, false) {
+					inner := append([]byte{v, byte(len(sh))}, sh...)
+					o = append(o, mkDHCP4(5, macA, noGi, append([]byte{43, byte(len(inner))}, inner...)))
+				}
+			}
+			return o
+		},
 		run: func(data []byte, c *caseInfo) {
 			ack, err := dhcpv4.FromBytes(data)
 			if err != nil {
